@@ -161,6 +161,13 @@ func panicValue(kind string, nonce int64) any {
 			A int
 			B string
 		}{int(nonce), "boom"}
+	case "rpcerror":
+		// a must-style helper panicking with the framework's own error value
+		return &vgirpc.RpcError{Type: "ValueError", Kind: "row_range", Message: fmt.Sprintf("scripted panic rpcerror %d", nonce)}
+	case "wrapped-rpcerror":
+		return fmt.Errorf("scripted panic wrap %d: %w", nonce, &vgirpc.RpcError{Type: "KeyError", Kind: "k", Message: "inner"})
+	case "int":
+		return int(nonce)
 	}
 	return fmt.Sprintf("scripted panic %d", nonce)
 }
@@ -202,7 +209,7 @@ func GenLogs(t *simkern.Tape, max int, tag string) []LogSpec {
 	return out
 }
 
-var panicKinds = []string{"string", "error", "struct"}
+var panicKinds = []string{"string", "error", "struct", "rpcerror", "wrapped-rpcerror", "int"}
 
 // GenOpts biases stream script generation.
 type GenOpts struct {
